@@ -666,7 +666,7 @@ func TestC10(t *testing.T) {
 			exec(c, func(v *verdict, fc *Case) { run.Violation(v.sig, v.msg, fc) })
 		}
 	}
-	run.Rapid(t, "scripts", ev.Pick(60, 6000), func(rt *rapid.T) {
+	run.Rapid(t, "scripts", ev.Pick(150, 6000), func(rt *rapid.T) {
 		c := genCase(rt)
 		if c.Early {
 			run.Class("mode=early")
